@@ -77,10 +77,10 @@ def design_check(prop, tier, wd, devs_open):
     runs = []
     for alpha in ALPHAS[prop]:
         if alpha == "events":
-            depth = 5 if tier == "quick" else 7
+            depth = 5 if tier == "quick" else 6
             groups = [("os2_cap1", 1)] if tier == "quick" else [("os2_cap1", 1), ("os2_cap2", 0), ("mixed", 1)]
         else:
-            depth = 4 if tier == "quick" else 6
+            depth = 4 if tier == "quick" else 5
             groups = [("os2_cap1", 1)] if tier == "quick" else [("os2_cap1", 1), ("mixed", 0)]
         runs += [(alpha, depth, g) for g in groups]
     for alpha, depth, (model, retries) in runs:
@@ -355,7 +355,7 @@ def run(prop, tier, replay=None):
         cov["transitions"] += link_extra.get("link_transitions", 0)
         cov["traces_validated_against_impl"] += link_extra.get("link_conforming", 0)
     vlib.write_evidence(prop, tier, "model_checking", cov,
-                        ["bounded constants in the design check (2 points, <=3 updates, depth %d)" % (5 if tier == "quick" else 7),
+                        ["bounded constants in the design check (2 points, <=3 updates, depth %d)" % (5 if tier == "quick" else 6),
                          "conformance and monitor verdicts only on executed scenarios",
                          "harness codec and tokio paused-clock semantics trusted"],
                         time.time() - t0, len(unexplained))
